@@ -34,8 +34,8 @@ REAL = ["aiomysensors.Gateway.send", "get_outgoing_message_handler", "outgoing h
 STUB = ["event loop (SimLoop)", "transport (SimTransport)"]
 ASSUMPTIONS = ["codec acceptance per the C02 recogniser"]
 REQUIRED_PROBES = ["cmd0", "cmd1", "cmd2", "cmd3", "cmd4", "dest_sleeping", "dest_unknown", "dest_awake",
-                   "held_then_released", "written_at_once", "not_a_message"]
-SHRINK_LISTS = ("cases",)
+                   "held_then_released", "written_at_once", "not_a_message", "stateful_prehistory"]
+SHRINK_LISTS = ("cases", "pre")
 SET_TYPES = 57
 PRES_TYPES = 40
 
@@ -89,7 +89,19 @@ def gen(seed: int, i: int, tier: str) -> dict:
             cases.append([g[1], g[2], t, g[4], rng.choice([0, 1]), G.payload(rng, semi=True)])
         if rng.random() < 0.15:
             cases.append(["awake", "raw", rng.choice(["str", "none", "int", "dict", "tuple"]), True, 0, ""])
-    return {"cfg": {"pin": proto}, "cases": cases}
+    pre = []
+    if proto in G.PROTOS_2X and rng.random() < 0.6:
+        # incoming traffic first: missing-node episodes leave 'presentation requested' markers behind,
+        # wakes leave nodes sleeping, parked commands sit in the buffer
+        for _ in range(rng.randint(1, 5)):
+            n = rng.choice([50, 50, 1, 2, 60])
+            pre.append(rng.choice([f"{n};1;1;0;0;20.5\n", f"{n};255;3;0;0;55\n", f"{n};3;2;0;2;\n",
+                                   f"{n};255;3;0;11;sk\n", G.wake_line(proto, rng.choice([1, 2]), 3)]))
+        if rng.random() < 0.7:
+            for _ in range(rng.randint(1, 3)):
+                t = rng.choice([19, 19, 18, 13, 20, 24])
+                cases.append([rng.choice(["unknown", "unknown", "awake", "sleeping"]), 3, t, rng.random() < 0.8, 0, ""])
+    return {"cfg": {"pin": proto}, "pre": pre, "cases": cases}
 
 
 RAW = {"str": "1;0;1;0;2;1\n", "none": None, "int": 7, "dict": {"node_id": 1}, "tuple": (1, 0, 1, 0, 2, "1")}
@@ -108,6 +120,9 @@ def run(scn) -> RunResult:
                 "2": {"type": 17, "version": proto, "sleeping": True, "children": {"0": {"type": 3, "desc": "c"}}},
             })
             keys = []
+            for line in scn.get("pre", []):
+                w.listen_step(line)
+                res.probes["stateful_prehistory"] += 1
             for k, (dest, cmd, t, buf, ack, p) in enumerate(scn["cases"]):
                 res.ops += 1
                 if cmd == "raw":
